@@ -157,9 +157,9 @@ MUTANTS = [
                 del work_item""", """            if work_item is not None:
                 del work_item""")),
     M("drop-result-exception-not-set", ["C01", "C03"], ["R-DROP-RESOLVES"],
-      (PE, """                if result_item.exception:
+      (PE, """                if result_item.exception is not None:
                     work_item.future.set_exception(result_item.exception)
-                else:""", """                if result_item.exception:
+                else:""", """                if result_item.exception is not None:
                     LOGGER.error("task failed: %r", result_item.exception)
                 else:""")),
     # --------------------------------------------------------------- R-MGR-EXIT
@@ -610,26 +610,26 @@ MUTANTS = [
       (QU, """                    queue_sem.release()
                     onerror(e, obj)""", """                    onerror(e, obj)""")),
     M("feeder-pickle-under-lock", ["C04"], ["R-PAIR"],
-      (QU, """                        obj_ = dumps(obj, reducers=reducers)
-                        if wacquire is None:
-                            send_bytes(obj_)
-                        else:
-                            wacquire()
-                            try:
-                                send_bytes(obj_)""", """                        if wacquire is None:
-                            obj_ = dumps(obj, reducers=reducers)
-                            send_bytes(obj_)
-                        else:
-                            wacquire()
-                            obj_ = dumps(obj, reducers=reducers)
-                            try:
-                                send_bytes(obj_)""")),
+      (QU, """                    obj_ = dumps(obj, reducers=reducers)
+                    if wacquire is None:
+                        send_bytes(obj_)
+                    else:
+                        wacquire()
+                        try:
+                            send_bytes(obj_)""", """                    if wacquire is None:
+                        obj_ = dumps(obj, reducers=reducers)
+                        send_bytes(obj_)
+                    else:
+                        wacquire()
+                        obj_ = dumps(obj, reducers=reducers)
+                        try:
+                            send_bytes(obj_)""")),
     M("feeder-release-not-in-finally", ["C04", "C01"], ["R-PAIR"],
-      (QU, """                            try:
-                                send_bytes(obj_)
-                            finally:
-                                wrelease()""", """                            send_bytes(obj_)
-                            wrelease()""")),
+      (QU, """                        try:
+                            send_bytes(obj_)
+                        finally:
+                            wrelease()""", """                        send_bytes(obj_)
+                        wrelease()""")),
     M("feeder-return-on-any-error", ["C04"], ["R-FEEDER"],
       (QU, """                if ignore_epipe and getattr(e, "errno", 0) == errno.EPIPE:
                     return""", """                if ignore_epipe:
@@ -704,7 +704,7 @@ MUTANTS = [
         self._queue_count += 1
         return f""")),
     M("id-set-result-regardless", ["C03"], ["R-ID", "R-DROP-RESOLVES"],
-      (PE, """                if result_item.exception:
+      (PE, """                if result_item.exception is not None:
                     work_item.future.set_exception(result_item.exception)
                 else:
                     work_item.future.set_result(result_item.result)""", """                work_item.future.set_result(result_item.result)""")),
@@ -1104,17 +1104,17 @@ MUTANTS = [
                 self._cond.wait(timeout)""")),
     # ------------------------------------- feeder loop
     M("feeder-drops-popped-object", ["C01", "C04"], ["R-FEEDER"],
-      (QU, """                            wacquire()
-                            try:
-                                send_bytes(obj_)
-                            finally:
-                                wrelease()""", """                            wacquire()
-                            try:
-                                pass
-                            finally:
-                                wrelease()""")),
+      (QU, """                        wacquire()
+                        try:
+                            send_bytes(obj_)
+                        finally:
+                            wrelease()""", """                        wacquire()
+                        try:
+                            pass
+                        finally:
+                            wrelease()""")),
     M("feeder-sentinel-test-inverted", ["C01", "C05"], ["R-FEEDER"],
-      (QU, """                        if obj is sentinel:""", """                        if obj is not sentinel:""")),
+      (QU, """                    if obj is sentinel:""", """                    if obj is not sentinel:""")),
     M("feeder-busy-loop", ["C01"], ["R-FEEDER"],
       (QU, """                    if not buffer:
                         nwait()""", """                    if buffer:
@@ -1266,9 +1266,9 @@ MUTANTS = [
             except IndexError:
                 break""")),
     M("feeder-send-without-lock-on-posix", ["C01", "C04"], ["R-PAIR"],
-      (QU, """                        if wacquire is None:
-                            send_bytes(obj_)""", """                        if wacquire is not None:
-                            send_bytes(obj_)""")),
+      (QU, """                    if wacquire is None:
+                        send_bytes(obj_)""", """                    if wacquire is not None:
+                        send_bytes(obj_)""")),
     M("killtree-kill-handler-narrow", ["C06"], ["R-KILL-TREE"],
       (UT, """        os.kill(pid, kill_signal)
     except OSError as e:""", """        os.kill(pid, kill_signal)
@@ -1285,27 +1285,27 @@ MUTANTS = [
                     max_workers = executor._max_workers""")),
     # ------------------------------------- round-3 seeds
     M("feeder-popped-object-overwritten-by-bytes", ["C01", "C04"], ["R-FEEDER"],
-      (QU, """                        obj_ = dumps(obj, reducers=reducers)
-                        if wacquire is None:
+      (QU, """                    obj_ = dumps(obj, reducers=reducers)
+                    if wacquire is None:
+                        send_bytes(obj_)
+                    else:
+                        wacquire()
+                        try:
                             send_bytes(obj_)
-                        else:
-                            wacquire()
-                            try:
-                                send_bytes(obj_)
-                            finally:
-                                wrelease()
-                        # Remove references early to avoid leaking memory
-                        del obj, obj_""", """                        obj = dumps(obj, reducers=reducers)
-                        if wacquire is None:
+                        finally:
+                            wrelease()
+                    # Remove references early to avoid leaking memory
+                    del obj, obj_""", """                    obj = dumps(obj, reducers=reducers)
+                    if wacquire is None:
+                        send_bytes(obj)
+                    else:
+                        wacquire()
+                        try:
                             send_bytes(obj)
-                        else:
-                            wacquire()
-                            try:
-                                send_bytes(obj)
-                            finally:
-                                wrelease()
-                        # Remove references early to avoid leaking memory
-                        del obj""")),
+                        finally:
+                            wrelease()
+                    # Remove references early to avoid leaking memory
+                    del obj""")),
     M("spawn-routine-early-return-at-exit", ["C07", "C08"], ["R-SPAWN-SITE"],
       (PE, """    def _adjust_process_count(self):
 """, """    def _adjust_process_count(self):
@@ -2301,6 +2301,40 @@ _resource_tracker""")),
       (PE, """                if work_item.future.set_running_or_notify_cancel():""", """                if not work_item.future.cancelled():
                     work_item.future.set_running_or_notify_cancel()""")),
 
+    # D15 (fixed in /repo): failure vs success decided by the truth value of the user's exception
+    M("result-dispatch-by-truthiness-D15", ["C01", "C03", "C04"], ["R-SCN-RESULT"],
+      (PE, """                if result_item.exception is not None:
+                    work_item.future.set_exception""", """                if result_item.exception:
+                    work_item.future.set_exception""")),
+    # D16 (fixed in /repo): the 'buffer empty' IndexError swallow covers the serialisation of the task
+    M("feeder-indexerror-swallow-covers-dumps-D16", ["C01", "C04", "C05", "C20"], ["R-FEEDER"],
+      (QU, """                    try:
+                        obj = bpopleft()
+                    except IndexError:
+                        # The buffer is empty. Only the pop is protected: an
+                        # IndexError raised while pickling obj is an error.
+                        break
+                    if obj is sentinel:
+                        util.debug("feeder thread got sentinel -- exiting")
+                        close()
+                        return
+
+                    # serialize the data before acquiring the lock
+                    obj_ = dumps(obj, reducers=reducers)""", """                    try:
+                        obj = bpopleft()
+                        if obj is sentinel:
+                            util.debug("feeder thread got sentinel -- exiting")
+                            close()
+                            return
+
+                        # serialize the data before acquiring the lock
+                        obj_ = dumps(obj, reducers=reducers)
+                    except IndexError:
+                        break""")),
+    # D17 (fixed in /repo): the task's exception is put on the result queue without protection against a pickling failure
+    M("worker-exception-sent-bare-D17", ["C04"], ["R-EXC-BREADTH"],
+      (PE, """            _sendback_result(result_queue, call_item.work_id, exception=exc)""",
+       """            result_queue.put(_ResultItem(call_item.work_id, exception=exc))""")),
 ]
 
 
@@ -2502,6 +2536,20 @@ BENIGN = [
                     )""", """                    msg = line.strip().decode("ascii")
                     cmd, _, msg = msg.partition(":")
                     name, _, rtype = msg.rpartition(":")""")),
+    B("benign-result-dispatch-none-branch-first", ["C01", "C03", "C04"],
+      (PE, """                if result_item.exception is not None:
+                    work_item.future.set_exception(result_item.exception)
+                else:
+                    work_item.future.set_result(result_item.result)""", """                if result_item.exception is None:
+                    work_item.future.set_result(result_item.result)
+                else:
+                    work_item.future.set_exception(result_item.exception)""")),
+    B("benign-worker-exception-sent-in-own-try", ["C04"],
+      (PE, """            _sendback_result(result_queue, call_item.work_id, exception=exc)""",
+       """            try:
+                result_queue.put(_ResultItem(call_item.work_id, exception=exc))
+            except BaseException as e2:
+                result_queue.put(_ResultItem(call_item.work_id, exception=_ExceptionWithTraceback(e2)))""")),
     B("benign-env-overlay-copied", ["C18", "C20"],
       (PR, """        self.env = {} if env is None else env""", """        self.env = dict(env or {})""")),
     B("benign-increment-spelled-out", None,
